@@ -2,6 +2,6 @@ CONSTANTS
   MaxText = 3
   MaxTextPos = 2
   MaxChildren = 2
-  Alphabet = {"sp", "tab", "lf", "cr", "crlf", "nbsp", "ideo", "ls", "a", "b", "amp", "nbspE"}
+  Alphabet = {"sp", "tab", "lf", "cr", "crlf", "nbsp", "ideo", "ls", "a", "b", "amp", "nbspE", "lfE"}
 INIT Init
 NEXT Next
